@@ -59,6 +59,7 @@ pub fn history_props(id: &str) -> Option<HistoryProp> {
                 HistoryTier { label: "C01-medium", gen: GenCfg { avail_mem: medium_mem(), ..GenCfg::medium() }, quick: 300, thorough: 5000 },
                 HistoryTier { label: "C01-large", gen: gen_large(), quick: 0, thorough: 160 },
                 HistoryTier { label: "C01-bulk", gen: gen_bulk(), quick: 96, thorough: 1500 },
+                HistoryTier { label: "C01-huge", gen: gen_huge(), quick: 8, thorough: 120 },
             ],
             nontrivial: |h, st| st.get("builds_ok") >= 2 && has_delete_or_overwrite_between_builds(h, st) && st.get("has_split") > 0,
             assumptions: base_assume,
@@ -75,6 +76,7 @@ pub fn history_props(id: &str) -> Option<HistoryProp> {
                 HistoryTier { label: "C02-medium", gen: GenCfg { avail_mem: medium_mem(), ..GenCfg::medium() }, quick: 250, thorough: 4000 },
                 HistoryTier { label: "C02-large", gen: gen_large(), quick: 0, thorough: 120 },
                 HistoryTier { label: "C02-bulk", gen: gen_bulk(), quick: 32, thorough: 600 },
+                HistoryTier { label: "C02-huge", gen: gen_huge(), quick: 16, thorough: 160 },
             ],
             nontrivial: |_h, st| st.get("builds_ok") >= 2 && st.get("has_split") > 0 && st.get("exact_count_ge2") > 0,
             assumptions: base_assume,
@@ -266,6 +268,22 @@ pub fn history_props(id: &str) -> Option<HistoryProp> {
             tiers: vec![
                 HistoryTier { label: "C20-small", gen: gen_c20(false), quick: 1500, thorough: 30_000 },
                 HistoryTier { label: "C20-large", gen: gen_c20(true), quick: 60, thorough: 1500 },
+                // "a few thousand": 4097-6000 degenerate vectors arriving in one round (one unsplittable node
+                // larger than a roaring array container)
+                HistoryTier {
+                    label: "C20-bulk",
+                    gen: GenCfg {
+                        dims: vec![(3, vec![1, 2, 3]), (1, vec![17])],
+                        first_ops: (1, 20),
+                        later_ops: (0, 50),
+                        id_pool: (4200, 6000),
+                        bulk: Some((4097, 6000)),
+                        edge_ids: false,
+                        ..gen_c20(true)
+                    },
+                    quick: 32,
+                    thorough: 600,
+                },
             ],
             nontrivial: |_h, st| st.get("has_split") > 0,
             assumptions: base_assume,
@@ -318,6 +336,23 @@ fn gen_bulk() -> GenCfg {
         build_pct: 100,
         edge_ids: false,
         ..GenCfg::medium()
+    }
+}
+
+/// More than 16384 items (a search collects more than 2^14 candidates, bitmaps span several containers).
+fn gen_huge() -> GenCfg {
+    GenCfg {
+        dims: vec![(1, vec![2, 3])],
+        rounds: (1, 2),
+        first_ops: (2, 30),
+        later_ops: (5, 100),
+        id_pool: (16_400, 24_000),
+        bulk: Some((16_385, 24_000)),
+        pool_weights: [4, 1, 1],
+        n_trees: vec![(1, vec![None]), (3, vec![Some(1), Some(2)])],
+        split_after: vec![(2, vec![None]), (2, vec![Some(10), Some(50)])],
+        threads: vec![4, 16],
+        ..gen_bulk()
     }
 }
 
@@ -491,7 +526,7 @@ fn c06_nontrivial(s: &ScriptSpec, st: &CaseStats) -> bool {
     }
     for x in &s.steps {
         match x {
-            Step::Add { .. } | Step::Del { .. } | Step::AppendHigh { .. } | Step::Append { .. } => seen_stale = true,
+            Step::Add { .. } | Step::Del { .. } | Step::DelAll { .. } | Step::AppendHigh { .. } | Step::Append { .. } => seen_stale = true,
             Step::Commit if seen_stale => stale_then_commit = true,
             _ => {}
         }
